@@ -460,6 +460,13 @@ func (c *clientV2) Empty() {
 	c.tryUpdateReadyState()
 }
 
+// Discarded is called by Channel.Empty with the number of this client's
+// in-flight messages that were dropped
+func (c *clientV2) Discarded(n int64) {
+	atomic.AddInt64(&c.InFlightCount, -n)
+	c.tryUpdateReadyState()
+}
+
 func (c *clientV2) SendingMessage() {
 	atomic.AddInt64(&c.InFlightCount, 1)
 	atomic.AddUint64(&c.MessageCount, 1)
